@@ -176,16 +176,25 @@ fn to_py(core: &Core, ind: usize) -> String {
             } else {
                 format!(" {}", comma_delimited(args, ind))
             },
-            to_py(body, ind)
+            operand(body, ind, LAMBDA)
         ),
 
         Core::Block { statements } => newline_delimited(statements, ind),
 
         Core::PropertyCall { object, property } => {
-            format!("{}.{}", to_py(object, ind), to_py(property, ind))
+            let object = match object.as_ref() {
+                // 1.real is not valid Python
+                Core::Int { .. } => format!("({})", to_py(object, ind)),
+                _ => operand(object, ind, POSTFIX),
+            };
+            format!("{object}.{}", to_py(property, ind))
         }
         Core::FunctionCall { function, args } => {
-            format!("{}({})", to_py(function, ind), comma_delimited(args, ind))
+            format!(
+                "{}({})",
+                operand(function, ind, POSTFIX),
+                comma_delimited(args, ind)
+            )
         }
 
         Core::DictComprehension {
@@ -229,6 +238,9 @@ fn to_py(core: &Core, ind: usize) -> String {
             )
         }
 
+        Core::Tuple { elements } if elements.len() == 1 => {
+            format!("({},)", comma_delimited(elements, ind))
+        }
         Core::Tuple { elements } => format!("({})", comma_delimited(elements, ind)),
         Core::TupleLiteral { elements } => comma_delimited(elements, ind),
         Core::Dictionary { elements } => {
@@ -255,175 +267,43 @@ fn to_py(core: &Core, ind: usize) -> String {
 
         Core::UnderScore => String::from("_"),
 
-        Core::Ge { left, right } => {
-            format!(
-                "{} > {}",
-                to_py(left.as_ref(), ind),
-                to_py(right.as_ref(), ind)
-            )
-        }
-        Core::Geq { left, right } => {
-            format!(
-                "{} >= {}",
-                to_py(left.as_ref(), ind),
-                to_py(right.as_ref(), ind)
-            )
-        }
-        Core::Le { left, right } => {
-            format!(
-                "{} < {}",
-                to_py(left.as_ref(), ind),
-                to_py(right.as_ref(), ind)
-            )
-        }
-        Core::Leq { left, right } => {
-            format!(
-                "{} <= {}",
-                to_py(left.as_ref(), ind),
-                to_py(right.as_ref(), ind)
-            )
-        }
+        Core::Ge { left, right } => binary(core, left, ">", right, ind),
+        Core::Geq { left, right } => binary(core, left, ">=", right, ind),
+        Core::Le { left, right } => binary(core, left, "<", right, ind),
+        Core::Leq { left, right } => binary(core, left, "<=", right, ind),
 
-        Core::Not { expr } => format!("not {}", to_py(expr.as_ref(), ind)),
-        Core::And { left, right } => {
-            format!(
-                "{} and {}",
-                to_py(left.as_ref(), ind),
-                to_py(right.as_ref(), ind)
-            )
-        }
-        Core::Or { left, right } => {
-            format!(
-                "{} or {}",
-                to_py(left.as_ref(), ind),
-                to_py(right.as_ref(), ind)
-            )
-        }
-        Core::Is { left, right } => {
-            format!(
-                "{} is {}",
-                to_py(left.as_ref(), ind),
-                to_py(right.as_ref(), ind)
-            )
-        }
-        Core::IsN { left, right } => {
-            format!(
-                "{} is not {}",
-                to_py(left.as_ref(), ind),
-                to_py(right.as_ref(), ind)
-            )
-        }
-        Core::Eq { left, right } => {
-            format!(
-                "{} == {}",
-                to_py(left.as_ref(), ind),
-                to_py(right.as_ref(), ind)
-            )
-        }
-        Core::Neq { left, right } => {
-            format!(
-                "{} != {}",
-                to_py(left.as_ref(), ind),
-                to_py(right.as_ref(), ind)
-            )
-        }
+        Core::Not { expr } => format!("not {}", operand(expr, ind, precedence(core))),
+        Core::And { left, right } => binary(core, left, "and", right, ind),
+        Core::Or { left, right } => binary(core, left, "or", right, ind),
+        Core::Is { left, right } => binary(core, left, "is", right, ind),
+        Core::IsN { left, right } => binary(core, left, "is not", right, ind),
+        Core::Eq { left, right } => binary(core, left, "==", right, ind),
+        Core::Neq { left, right } => binary(core, left, "!=", right, ind),
         Core::IsA { left, right } => {
             format!(
                 "isinstance({},{})",
-                to_py(left.as_ref(), ind),
-                to_py(right.as_ref(), ind)
+                operand(left, ind, LAMBDA),
+                operand(right, ind, LAMBDA)
             )
         }
 
-        Core::AddU { expr } => format!("+{}", to_py(expr, ind)),
-        Core::Add { left, right } => {
-            format!(
-                "{} + {}",
-                to_py(left.as_ref(), ind),
-                to_py(right.as_ref(), ind)
-            )
-        }
-        Core::SubU { expr } => format!("-{}", to_py(expr, ind)),
-        Core::Sub { left, right } => {
-            format!(
-                "{} - {}",
-                to_py(left.as_ref(), ind),
-                to_py(right.as_ref(), ind)
-            )
-        }
-        Core::Mul { left, right } => {
-            format!(
-                "{} * {}",
-                to_py(left.as_ref(), ind),
-                to_py(right.as_ref(), ind)
-            )
-        }
-        Core::Div { left, right } => {
-            format!(
-                "{} / {}",
-                to_py(left.as_ref(), ind),
-                to_py(right.as_ref(), ind)
-            )
-        }
-        Core::FDiv { left, right } => {
-            format!(
-                "{} // {}",
-                to_py(left.as_ref(), ind),
-                to_py(right.as_ref(), ind)
-            )
-        }
-        Core::Pow { left, right } => {
-            format!(
-                "{} ** {}",
-                to_py(left.as_ref(), ind),
-                to_py(right.as_ref(), ind)
-            )
-        }
-        Core::Mod { left, right } => {
-            format!(
-                "{} % {}",
-                to_py(left.as_ref(), ind),
-                to_py(right.as_ref(), ind)
-            )
-        }
-        Core::Sqrt { expr } => format!("math.sqrt({})", to_py(expr.as_ref(), ind)),
+        Core::AddU { expr } => format!("+{}", operand(expr, ind, precedence(core))),
+        Core::Add { left, right } => binary(core, left, "+", right, ind),
+        Core::SubU { expr } => format!("-{}", operand(expr, ind, precedence(core))),
+        Core::Sub { left, right } => binary(core, left, "-", right, ind),
+        Core::Mul { left, right } => binary(core, left, "*", right, ind),
+        Core::Div { left, right } => binary(core, left, "/", right, ind),
+        Core::FDiv { left, right } => binary(core, left, "//", right, ind),
+        Core::Pow { left, right } => binary(core, left, "**", right, ind),
+        Core::Mod { left, right } => binary(core, left, "%", right, ind),
+        Core::Sqrt { expr } => format!("math.sqrt({})", operand(expr, ind, LAMBDA)),
 
-        Core::BAnd { left, right } => {
-            format!(
-                "{} & {}",
-                to_py(left.as_ref(), ind),
-                to_py(right.as_ref(), ind)
-            )
-        }
-        Core::BOr { left, right } => {
-            format!(
-                "{} | {}",
-                to_py(left.as_ref(), ind),
-                to_py(right.as_ref(), ind)
-            )
-        }
-        Core::BXOr { left, right } => {
-            format!(
-                "{} ^ {}",
-                to_py(left.as_ref(), ind),
-                to_py(right.as_ref(), ind)
-            )
-        }
-        Core::BOneCmpl { expr } => format!("~{}", to_py(expr, ind)),
-        Core::BLShift { left, right } => {
-            format!(
-                "{} << {}",
-                to_py(left.as_ref(), ind),
-                to_py(right.as_ref(), ind)
-            )
-        }
-        Core::BRShift { left, right } => {
-            format!(
-                "{} >> {}",
-                to_py(left.as_ref(), ind),
-                to_py(right.as_ref(), ind)
-            )
-        }
+        Core::BAnd { left, right } => binary(core, left, "&", right, ind),
+        Core::BOr { left, right } => binary(core, left, "|", right, ind),
+        Core::BXOr { left, right } => binary(core, left, "^", right, ind),
+        Core::BOneCmpl { expr } => format!("~{}", operand(expr, ind, precedence(core))),
+        Core::BLShift { left, right } => binary(core, left, "<<", right, ind),
+        Core::BRShift { left, right } => binary(core, left, ">>", right, ind),
 
         Core::Return { expr } => format!("return {}", to_py(expr.as_ref(), ind)),
 
@@ -433,8 +313,10 @@ fn to_py(core: &Core, ind: usize) -> String {
             to_py(col.as_ref(), ind),
             newline_if_body(body, ind)
         ),
-        Core::In { left, right } => format! {"{} in {}", to_py(left, ind), to_py(right, ind)},
-        Core::Index { item, range } => format!("{}[{}]", to_py(item, ind), to_py(range, ind)),
+        Core::In { left, right } => binary(core, left, "in", right, ind),
+        Core::Index { item, range } => {
+            format!("{}[{}]", operand(item, ind, POSTFIX), to_py(range, ind))
+        }
         Core::If { cond, then } => {
             format!(
                 "if {}:{}",
@@ -451,9 +333,9 @@ fn to_py(core: &Core, ind: usize) -> String {
         ),
         Core::Ternary { cond, then, el } => format!(
             "{} if {} else {}",
-            to_py(then.as_ref(), ind),
-            to_py(cond.as_ref(), ind + 1),
-            to_py(el.as_ref(), ind + 1)
+            operand(then, ind, TERNARY + 1),
+            operand(cond, ind + 1, TERNARY + 1),
+            operand(el, ind + 1, TERNARY)
         ),
         Core::While { cond, body } => {
             format!(
@@ -531,6 +413,68 @@ fn to_py(core: &Core, ind: usize) -> String {
     }
 }
 
+
+const LAMBDA: u8 = 1;
+const TERNARY: u8 = 2;
+const COMPARISON: u8 = 6;
+const UNARY: u8 = 13;
+const POW: u8 = 14;
+const POSTFIX: u8 = 16;
+
+/// How strong an expression binds in Python; an operand which binds weaker than its operator
+/// demands must be parenthesised, or Python groups the printed text differently.
+fn precedence(core: &Core) -> u8 {
+    match core {
+        Core::TupleLiteral { .. } | Core::Comprehension { .. } | Core::DictComprehension { .. } => 0,
+        Core::AnonFun { .. } => LAMBDA,
+        Core::Ternary { .. } => TERNARY,
+        Core::Or { .. } => 3,
+        Core::And { .. } => 4,
+        Core::Not { .. } => 5,
+        Core::Ge { .. }
+        | Core::Geq { .. }
+        | Core::Le { .. }
+        | Core::Leq { .. }
+        | Core::Eq { .. }
+        | Core::Neq { .. }
+        | Core::Is { .. }
+        | Core::IsN { .. }
+        | Core::In { .. } => COMPARISON,
+        Core::BOr { .. } => 7,
+        Core::BXOr { .. } => 8,
+        Core::BAnd { .. } => 9,
+        Core::BLShift { .. } | Core::BRShift { .. } => 10,
+        Core::Add { .. } | Core::Sub { .. } => 11,
+        Core::Mul { .. } | Core::Div { .. } | Core::FDiv { .. } | Core::Mod { .. } => 12,
+        Core::AddU { .. } | Core::SubU { .. } | Core::BOneCmpl { .. } => UNARY,
+        Core::Pow { .. } => POW,
+        _ => 17,
+    }
+}
+
+fn operand(core: &Core, ind: usize, min_precedence: u8) -> String {
+    if precedence(core) < min_precedence {
+        format!("({})", to_py(core, ind))
+    } else {
+        to_py(core, ind)
+    }
+}
+
+/// Binary operators group to the left, except the power operator which groups to the right and
+/// comparisons, which would chain.
+fn binary(core: &Core, left: &Core, op: &str, right: &Core, ind: usize) -> String {
+    let (left_min, right_min) = match precedence(core) {
+        POW => (POW + 1, UNARY),
+        COMPARISON => (COMPARISON + 1, COMPARISON + 1),
+        precedence => (precedence, precedence + 1),
+    };
+    format!(
+        "{} {op} {}",
+        operand(left, ind, left_min),
+        operand(right, ind, right_min)
+    )
+}
+
 fn indent(amount: usize) -> String {
     " ".repeat(IND_SPACES * amount)
 }
@@ -554,7 +498,7 @@ fn comma_delimited(items: &[Core], ind: usize) -> String {
     let mut s = String::new();
     items
         .iter()
-        .for_each(|item| write!(s, "{}, ", to_py(item, ind)).unwrap());
+        .for_each(|item| write!(s, "{}, ", operand(item, ind, LAMBDA)).unwrap());
 
     if s.len() > 2 {
         s.remove(s.len() - 2);
